@@ -109,6 +109,13 @@ def gen_case(rng, force_shape=None):
     if shape == "abutting":
         # a second burn of the same agent that starts exactly when the first one ends (hand-over anywhere in the grid)
         mid = rng.randrange(int(a) + 1, int(b))
+        if force_shape == "abutting" and n >= 3 and step >= 4:
+            # forced once per run: the first burn is already active when a step starts and the second one, not yet active, is
+            # queued in that same step (first burn spans the boundary k*step, hand-over shortly after it)
+            kb = rng.randrange(1, n - 1)
+            a = kb * step - rng.randrange(1, step // 2 + 1)
+            mid = kb * step + rng.randrange(1, step // 2 + 1)
+            b = min(mid + rng.randrange(1, step), total - 1)
         second = {"t_on": mid, "t_off": int(b), "vec": [rng.choice([-1, 1]) * mag * rng.uniform(0.3, 1) for _ in range(3)], "mag": rng.choice([-1, 1]) * mag}
         b = mid
         if kind in ("spiral", "plane_change"):
